@@ -99,7 +99,16 @@ class Body:
                     continue
                 ss.append(tb)
             succ.append(ss)
-        nb._succ = succ
+        # blocks no longer reachable from the entry contribute no edges (and hence no reaching definitions)
+        seen = {0}
+        st = [0]
+        while st:
+            x = st.pop()
+            for y in succ[x]:
+                if y not in seen:
+                    seen.add(y)
+                    st.append(y)
+        nb._succ = [ss if i in seen else [] for i, ss in enumerate(succ)]
         return nb
 
     def reachable(self, cut_edges=frozenset(), cut_blocks=frozenset(), start=0, edge_ok=None):
@@ -291,16 +300,63 @@ class Body:
             return None
         return self.ref_target(op[1][0])
 
-    def _const_local(self, l):
-        """integer value of local l if its only definition is an integer constant (index locals)"""
+    def _const_local(self, l, depth=0):
+        """integer value of local l if its only definition is an integer constant (index locals), a copy of
+        such a local, or a call of a function that does nothing but return an integer constant"""
         defs = self._all_defs().get(l, [])
-        if len(defs) == 1 and defs[0][2] == 'a' and defs[0][3] == [] and defs[0][4][0] == 'use' and defs[0][4][1][0] == 'k':
-            v = defs[0][4][1][2]
+        if len(defs) != 1 or defs[0][3] != []:
+            return None
+        d = defs[0]
+        if d[2] == 'a' and d[4][0] == 'use' and d[4][1][0] == 'k':
+            v = d[4][1][2]
             if isinstance(v, dict) and 'named' in v:
                 v = v['v']
             if isinstance(v, int) and not isinstance(v, bool):
                 return v
+        if d[2] == 'a' and d[4][0] == 'use' and d[4][1][0] in ('c', 'm') and d[4][1][1][1] == [] and depth < 3:
+            return self._const_local(d[4][1][1][0], depth + 1)
+        if d[2] == 'a' and d[4][0] == 'use' and d[4][1][0] in ('c', 'm') and len(d[4][1][1][1]) == 1 and depth < 3 \
+                and d[4][1][1][1][0][0] == 'f' and d[4][1][1][1][0][1] == 0:
+            # (_t.0) of a checked addition of two resolvable operands
+            td = self._all_defs().get(d[4][1][1][0], [])
+            if len(td) == 1 and td[0][2] == 'a' and td[0][3] == [] and td[0][4][0] == 'bin' and td[0][4][1] in ('AddWithOverflow', 'Add'):
+                vals = []
+                for op in td[0][4][2:4]:
+                    if op[0] == 'k':
+                        v = op[2]
+                        if isinstance(v, dict) and 'named' in v:
+                            v = v['v']
+                        vals.append(v if isinstance(v, int) and not isinstance(v, bool) else None)
+                    elif op[1][1] == []:
+                        vals.append(self._const_local(op[1][0], depth + 1))
+                    else:
+                        vals.append(None)
+                if None not in vals:
+                    return vals[0] + vals[1]
+        if d[2] == 'call' and depth < 3:
+            nm = self.callee_name(d[4][1])
+            cb = self.facts.bodies.get(nm) if nm else None
+            if cb is not None:
+                return cb.const_return()
         return None
+
+    def const_return(self):
+        """the integer constant this body returns if it consists of nothing but `return K`"""
+        live = [b for b in self.blocks if not b['cl']]
+        if len(live) != 1 or live[0]['t'][0] != 'ret':
+            return None
+        val = None
+        for s in live[0]['s']:
+            if s[0] == 'a' and s[1] == [0, []] and s[2][0] == 'use' and s[2][1][0] == 'k':
+                v = s[2][1][2]
+                if isinstance(v, dict) and 'named' in v:
+                    v = v['v']
+                if isinstance(v, int) and not isinstance(v, bool):
+                    val = v
+                    continue
+            if s[0] == 'a':
+                return None
+        return val
 
     @staticmethod
     def field_labels(path):
